@@ -333,6 +333,10 @@ def run(tier, procs=None, only=None):
     )
 
 
+# every real-library oracle of this property (each returns (reproduced, detail)); used to confirm structural facts that carry no replay of their own
+ALL_REPLAYS = [replay_fsc]
+
+
 def replay(data):
     ok, detail = replay_fsc(data.get("cex") or {})
     print("replay:", detail)
